@@ -1177,6 +1177,7 @@ def run_c03(ctx):
     erroring_comparison_stream(ctx, 60 if q else 1500)
     nonfinite_entry_stream(ctx, 80 if q else 2000)
     exact_mesh_tolerance_stream(ctx, 60 if q else 1500)
+    flat_direction_stream(ctx, 40 if q else 1000)
     run_stage_batch(ctx, stage_batch)
     run_ladder_batch(ctx, ladder_batch)
     ctx.rule = ("meshes as in C02 with exactly one single-site modification on one side (move a point along one axis by 16..1e6 "
@@ -1349,6 +1350,37 @@ def exact_mesh_tolerance_stream(ctx, n):
         if res["bool"] == moved:
             ctx.violation("E4", f"meshes with tolerances set to exactly zero: comparison {'PASSES although a coordinate differs by 2^-30 relative' if moved else 'fails for identical coordinates'}",
                           canon, impl=res)
+        ctx.traces_validated += 1
+
+
+def flat_direction_stream(ctx, n):
+    """two image grids with the same numbers of points and cells, the same origin and spacing and the same field values — one lies
+    in the x-y plane, the other in the x-z (or y-z) plane: half their points differ, the comparison must fail in both roles"""
+    from fieldcompare.mesh import ImageMesh, MeshFields
+    rng = ctx.rng
+    for it in range(n):
+        e1, e2 = rng.randint(1, 3), rng.randint(1, 3)
+        exts = [(e1, e2, 0), (e1, 0, e2), (0, e1, e2)]
+        ea, eb = rng.sample(exts, 2)
+        sp = float(rng.choice([1, 2])) / rng.choice([1, 2])
+        npts, ncells = (e1 + 1) * (e2 + 1), e1 * e2
+        u = np.array([float(rng.randint(-8, 8)) / 4 for _ in range(npts)])
+        c_ = np.array([float(rng.randint(-8, 8)) / 4 for _ in range(ncells)])
+        canon = {"kind": "flat_direction", "extents_a": list(ea), "extents_b": list(eb), "spacing": sp}
+        try:
+            with quiet():
+                warnings.simplefilter("ignore")
+                fa = MeshFields(ImageMesh(ea, (0.0, 0.0, 0.0), (sp, sp, sp)), {"u": u}, {"c": [c_]})
+                fb = MeshFields(ImageMesh(eb, (0.0, 0.0, 0.0), (sp, sp, sp)), {"u": u.copy()}, {"c": [c_.copy()]})
+                res = (compare_impl(fa, fb), compare_impl(fb, fa), bool(fa.domain.equals(fb.domain)), bool(fb.domain.equals(fa.domain)))
+        except Exception as e:  # noqa: BLE001
+            ctx.violation("E4", f"comparison of image grids flat in different directions raised {type(e).__name__}: {e}", canon)
+            continue
+        ctx.case(canon, True, sample={"case": canon, "impl": [res[0]["bool"], res[1]["bool"], res[2], res[3]]})
+        ctx.count("c03:image grids flat in different directions")
+        if res[0]["bool"] or res[1]["bool"] or res[2] or res[3]:
+            ctx.violation("E4", f"image grids with extents {ea} and {eb} (flat in different directions) compare as equal", canon,
+                          impl=[res[0]["bool"], res[1]["bool"], res[2], res[3]])
         ctx.traces_validated += 1
 
 
@@ -1905,6 +1937,9 @@ def run_c16(ctx):
                     pp = lambda od: np.array([[float(od[0][i]), float(od[1][j]), float(od[2][k])]  # noqa: E731
                                               for k in range(ext[2] + 1) for j in range(ext[1] + 1) for i in range(ext[0] + 1)])
                     m1, m2 = StructuredMesh(ext, pp(ords)), StructuredMesh(ext, pp(ords2))
+                if rng.random() < 0.5:
+                    m1.equals(m2)                 # a first comparison under the default tolerances: what is set afterwards still counts
+                    m1.equals(m1)
                 m1.set_tolerances(abs_tol=abs_set, rel_tol=rel_set)
                 seen = (float(m1.relative_tolerance), float(m1.absolute_tolerance))
                 got = bool(m1.equals(m2))
